@@ -19,8 +19,9 @@ LINEAGE = "prqlc/prqlc/src/ir/pl/lineage.rs"
 IDENT = "prqlc/prqlc-parser/src/parser/pr/ident.rs"
 INFERENCE = "prqlc/prqlc/src/semantic/resolver/inference.rs"
 
-LABELS = ["LE1", "LE2", "LE3", "IC1", "IC2", "SH1"]
-FUNCTIONS = ["excludes_one", "except_from_star", "is_column_named", "declare_if_new", "shadow_one"]
+LABELS = ["LE1", "LE2", "LE3", "IC1", "IC2", "SH1", "JL1", "JL2"]
+FUNCTIONS = ["excludes_one", "except_from_star", "is_column_named", "declare_if_new", "shadow_one", "join"]
+OPTIONAL_FUNCTIONS = ["shadow_one"]
 RLIMIT = 60
 
 ASSUMED = [
@@ -28,6 +29,7 @@ ASSUMED = [
     {"what": "HashSet<String> is the shim StrSet with a ghost set view (contains); derived PartialEq on Option<Ident> is same_ident(): equal path and equal name "
              "(structural equality of the spec values); usize == usize is primitive",
      "keys": ["struct StrSet", "fn view", "fn contains", "fn insert", "fn opt_ident_eq", "spec fn same_ident"]},
+    {"what": "Vec::extend with a vector appends its elements in order", "keys": ["fn vec_extend"]},
     {"what": "Ident::iter().next().unwrap() is the first segment of the identifier (ident_first: path[0], or the name of a one-segment identifier); &String == &String / "
              "&String == &str compare the character sequences; String::clone / str::to_string keep them",
      "keys": ["fn ident_first", "spec fn first_seg", "fn string_eq", "fn str_eq", "fn clone_string", "fn str_to_string", "fn same_bare_name"]},
@@ -159,6 +161,17 @@ def build(X):
     # ---- shadowing: what a newly defined column does to ONE earlier column
     sh = X.fn(TRANSFORMS, "apply_assign")
     msh = re.search(r"for c in &mut self\.columns \{", sh.text)
+    sh_text_extra = ""
+    if not msh:
+        # the loop may have moved into a method of Lineage that apply_assign calls: follow the call (R9)
+        for mcall in re.finditer(r"\bself\.(\w+)\(", sh.text):
+            try:
+                cand = X.fn(TRANSFORMS, mcall.group(1), after="impl Lineage")
+            except ExtractionError:
+                continue
+            if re.search(r"for c in &mut self\.columns \{", cand.text):
+                sh, msh = cand, re.search(r"for c in &mut self\.columns \{", cand.text)
+                break
     if not msh:
         raise ExtractionError("apply_assign: the loop `for c in &mut self.columns { .. }` that removes the names of shadowed columns was not found")
     stoks = code_tokens(sh.text)
@@ -175,7 +188,22 @@ def build(X):
                "            ==> (*final(c) is Single && final(c)->Single_name is None && final(c)->Single_target_id == old(c)->Single_target_id && final(c)->Single_target_name == old(c)->Single_target_name),\n"
                "        !(*old(c) is Single && old(c)->Single_name is Some && old(c)->Single_name->0.name@ == name->0.name@) ==> *final(c) == *old(c), // @SH1\n"
                "{\n    " + sh.text + "\n}\n")
-    return (PRELUDE + common_std.STR_PREDS + ident.text + "\n" + lc.text + "\n" + SHIMS + ty_field.text + "\n" + f.text + "\n" + ar.text + "\n" + g.text + "\n" + d.text + "\n" + sh.text
+    # ---- join: the frame of a join is the frame of the left relation followed by the frame of the right one
+    lin = X.type_item(LINEAGE, "struct", "Lineage").drop_attrs()
+    jn = X.fn(TRANSFORMS, "join", after="impl TransformCall").pub_all()
+    jn.rewrite_re("R5", r"\b(\w+)\.(columns|inputs)\.extend\((\w+)\.\2\);", r"vec_extend(&mut \1.\2, \3.\2);", count=None, why="Vec::extend with a vector: append")
+    jn.rewrite("R3", "fn join(mut lhs: Lineage, rhs: Lineage)", "fn join(lhs0: Lineage, rhs: Lineage)", why="`mut` parameter rebound by `let mut` (the contract names the entry value)")
+    jn.insert_at_body_start("let mut lhs = lhs0;", "rebinding of the `mut` parameter")
+    jn.ret_name("r")
+    jn.contract("""
+        ensures
+            // C10: every column of both relations is in the joined frame exactly as it was - same name, same qualifier - left relation first: a bare name that both sides
+            // answer to stays ambiguous, no column takes a name away from another
+            r.columns@ =~= lhs0.columns@ + rhs.columns@, // @JL1
+            r.inputs@ =~= lhs0.inputs@ + rhs.inputs@, // @JL2
+    """)
+    join_text = ("#[verifier::external_body] pub fn vec_extend<T>(v: &mut Vec<T>, o: Vec<T>) ensures final(v)@ == old(v)@ + o@, { unimplemented!() }\n" + lin.text + "\n" + jn.text + "\n")
+    return (PRELUDE + common_std.STR_PREDS + ident.text + "\n" + lc.text + "\n" + SHIMS + ty_field.text + "\n" + f.text + "\n" + ar.text + "\n" + g.text + "\n" + d.text + "\n" + sh.text + "\n" + join_text
             + "\n} // verus!\nfn main() {}\n")
 
 
